@@ -409,3 +409,7 @@ func MustXML(text string) *Doc {
 	}
 	return d
 }
+
+// FromXMLFragment is FromXML but keeps white-space-only text at any depth > 0
+// (the same as FromXML) and is tolerant of nothing else; used for CLI -m records.
+func FromXMLFragment(text string) (*Doc, error) { return FromXML(text) }
